@@ -10,7 +10,11 @@
     `Inv s`         the three maps are mutually consistent (one tuple per value, tuples partition
                     the keys, `_keys_dict` = membership in the tuples, storage = `_inv_dict` reversed)
     `Rep s l`       `Inv s`, and every value's tuple lists its keys in the order of `l`
-    `Op.valid`      key tuples of assignments are non-empty (the property's quantifier)
+    `Op.valid`      key tuples of assignments are non-empty (the property's quantifier) and hold no
+                    unhashable key;  `Op.nonEmpty` only the former
+    rejected ops    `Op.setUnhashable`, `Op.badOperand`, `SOp.rejected`: an operand cannot be hashed, the
+                    code raises in its first statement;  `Op.setBadKey`, `SOp.setRefused`: as the code
+                    is today the exception comes half-way (model = code, spec = nothing changes)
     `SD K V`        StrategyDict: the three maps + `vars(self)` (name attributes and `default`);
                     `sdStep`, `sdRun` = the code;  `SDSpec`, `sdSpecStep` = the property;
                     `SDRep s g` = `Rep` on the maps, equal attributes, equal default
@@ -182,6 +186,78 @@ theorem empty_tuple_breaks_coherence :
   refine ⟨by decide, by decide, by decide, fun h => ?_⟩
   exact h.tupNe (5, []) (by decide) rfl
 
+/-! ## operations that raise: unhashable values and keys -/
+
+/-- **C15.12d** a rejected operation is a no-op: assigning an unhashable value (`d[k] = []`,
+    whatever the keys) and every lookup / deletion with an unhashable operand raise and leave the
+    three maps exactly as they were — in ANY state — so the rest of the history runs as if the
+    operation had never been issued; the abstract map says the same -/
+theorem rejected_op_is_noop (s : St K V) (l : Log K V) (keys : List K) (rest : List (Op K V)) :
+    step s (.setUnhashable keys) = (s, .rejected) ∧ step s .badOperand = (s, .rejected) ∧
+    specStep l (.setUnhashable keys) = (l, .rejected) ∧ specStep l .badOperand = (l, .rejected) ∧
+    run s (.setUnhashable keys :: rest) = ((run s rest).1, .rejected :: (run s rest).2) ∧
+    run s (.badOperand :: rest) = ((run s rest).1, .rejected :: (run s rest).2) :=
+  ⟨rfl, rfl, rfl, rfl, rfl, rfl⟩
+
+/-- **C15.12e** … and `d[k]` is still the last value assigned by an assignment that did not raise:
+    histories with rejected operations interleaved are covered by C15.6 / C15.7 (`Op.valid` admits
+    them, `lastAssigned` skips them); stated here for one rejected assignment to the key itself -/
+theorem rejected_assignment_assigns_nothing (ops : List (Op K V)) (hv : ∀ op ∈ ops, Op.valid op)
+    (k : K) (keys : List K) :
+    getitem (run (St.empty : St K V) (ops ++ [.setUnhashable (k :: keys)])).1 k
+      = getitem (run (St.empty : St K V) ops).1 k := by
+  have hv' : ∀ op ∈ ops ++ [Op.setUnhashable (k :: keys)], Op.valid op := by
+    intro op hop
+    rcases List.mem_append.mp hop with h | h
+    · exact hv op h
+    · simp at h; subst h; trivial
+  rw [getitem_last_assigned _ hv', getitem_last_assigned _ hv]
+  have : ∀ (o : List (Op K V)) (cur : Option V),
+      lastAssigned k (o ++ [Op.setUnhashable (k :: keys)]) cur = lastAssigned k o cur := by
+    intro o
+    induction o with
+    | nil => intro cur; rfl
+    | cons op r ih => intro cur; cases op <;> simp only [List.cons_append, lastAssigned, ih]
+  exact this ops none
+
+/-- **C15.12f** coherence survives every operation, the one that fails half-way included: from any
+    coherent state, whatever the operation (only the empty key tuple is excluded, C15.12c) -/
+theorem inv_step_any {s : St K V} (h : Inv s) (op : Op K V) (hv : Op.nonEmpty op) : Inv (step s op).1 :=
+  step_inv_any h op hv
+
+/-- **C15.12g** an assignment whose key tuple holds an unhashable key, as the code is today: it
+    raises, and the dict is the abstract map WITHOUT the keys that stood in front of the unhashable
+    one (the assigned value's own older keys included) — nothing else is touched -/
+theorem setBadKey_refines_deletion (ops : List (Op K V)) (hv : ∀ op ∈ ops, Op.valid op)
+    (before after : List K) (v : V) :
+    let s := (run (St.empty : St K V) ops).1
+    let l := (specRun ([] : Log K V) ops).1
+    Rep (step s (.setBadKey before after v)).1 (l.filter (fun e => e.1 ∉ badKeyPrefix s before after v)) ∧
+      (step s (.setBadKey before after v)).2 = .rejected :=
+  setBadKey_sim (run_sim ops rep_empty hv).1 before after v
+
+/-- **C15.12h** … hence it is the no-op the property asks for when none of those keys holds a value
+    (in particular `d[[]] = v` for a value not stored yet) -/
+theorem setBadKey_noop_when_prefix_unbound (s : St K V) (before after : List K) (v : V)
+    (h : ∀ k ∈ badKeyPrefix s before after v, key2keys s k = none) :
+    step s (.setBadKey before after v) = (s, .rejected) := by
+  have : delLoop s (badKeyPrefix s before after v) = some s :=
+    delLoop_unbound _ s (fun k hk => by
+      have := h k hk
+      simp only [key2keys] at this
+      simp [dhas, this])
+  simp only [step, setitemBadKey, this]
+
+/-- **C15.12i** … and is NOT a no-op otherwise: the hypothesis of C15.12h is needed.  `a, b -> 1`,
+    `c -> 2`, then `d[("c", [])] = 1` raises `TypeError` after all three keys lost their values.
+    (Recorded as a known finding of the code; the property's answer is `specStep`: nothing changes.) -/
+theorem setBadKey_breaks_atomicity :
+    let s := (run (St.empty : St Nat Nat) [.set [1, 2] 1, .set [3] 2]).1
+    (step s (.setBadKey [3] [] 1)).2 = .rejected ∧ len (step s (.setBadKey [3] [] 1)).1 = 0 ∧
+      getitem s 1 = some 1 ∧ getitem (step s (.setBadKey [3] [] 1)).1 1 = none ∧
+      (specStep ([(1, 1), (2, 1), (3, 2)] : Log Nat Nat) (.setBadKey [3] [] 1)).1 = [(1, 1), (2, 1), (3, 2)] := by
+  decide
+
 /-! ## StrategyDict -/
 
 /-- **C15.13** one StrategyDict operation (assignment, deletion, lookup, attribute access /
@@ -311,6 +387,47 @@ theorem call_calls_default (s : SD K V) :
     sdStep s .call = (s, Res.ofDefault (sdDefault s)) ∧ sdStep s .default = (s, Res.ofDefault (sdDefault s)) :=
   ⟨rfl, rfl⟩
 
+/-- **C15.21** a StrategyDict operation refused in its first statement (unhashable name looked up or
+    deleted) is a no-op in any state, and the rest of the history runs as if it had not been issued -/
+theorem sd_rejected_op_is_noop (s : SD K V) (g : SDSpec K V) (rest : List (SOp K V)) :
+    sdStep s .rejected = (s, .rejected) ∧ sdSpecStep g .rejected = (g, .rejected) ∧
+    sdRun s (.rejected :: rest) = ((sdRun s rest).1, .rejected :: (sdRun s rest).2) :=
+  ⟨rfl, rfl, rfl⟩
+
+/-- **C15.22** a StrategyDict assignment that is refused after the deletion loop (unhashable strategy,
+    unhashable name in the tuple), as the code is today: it raises; the three maps stay coherent and
+    the state is the one in which the names `deleted` were deleted one by one — their bindings are
+    gone, the default is gone when it lost all its names, other attributes are untouched -/
+theorem sd_refused_set_refines_deletion (ops : List (SOp K V)) (hv : ∀ op ∈ ops, SOp.valid op)
+    (deleted : List K) :
+    let s := (sdRun (SD.empty : SD K V) ops).1
+    let g := (sdSpecRun ({} : SDSpec K V) ops).1
+    (sdStep s (.setRefused deleted)).2 = .rejected ∧ Inv (sdStep s (.setRefused deleted)).1.mkd ∧
+    (∀ k, getitem (sdStep s (.setRefused deleted)).1.mkd k = if k ∈ deleted then none else getitem s.mkd k) ∧
+    sdDefault (sdStep s (.setRefused deleted)).1 = defaultAfterLoss g.log g.default deleted := by
+  intro s g
+  obtain ⟨h, _⟩ := sdRun_sim ops sdrep_empty hv
+  obtain ⟨⟨g1, h1, hlog, _, hd⟩, hr⟩ := sdSetRefused_sim h deleted
+  refine ⟨hr, h1.rep.inv, fun k => ?_, by rw [sdDefault, h1.dflt, hd]⟩
+  rw [h1.rep.getitem_eq, hlog, h.rep.getitem_eq, dget_filter_key _ (fun x => decide (x ∉ deleted))]
+  by_cases hk : k ∈ deleted <;> simp [hk]
+
+/-- **C15.23** … hence the no-op the property asks for when none of those names holds a strategy -/
+theorem sd_refused_set_noop_when_unbound (s : SD K V) (deleted : List K)
+    (h : ∀ k ∈ deleted, key2keys s.mkd k = none) :
+    sdStep s (.setRefused deleted) = (s, .rejected) := by
+  simp only [sdStep, sdSetRefused, sdDelLoop_unbound deleted s h]
+
+/-- **C15.24** … and NOT a no-op otherwise: `sd["a"] = f0; sd["b"] = f1`, then `sd["a"] = <unhashable>`
+    raises `TypeError` after name `a`, its attribute and the default are gone.  (Recorded as a
+    known finding of the code; the property's answer is `sdSpecStep`: nothing changes.) -/
+theorem sd_refused_set_breaks_atomicity :
+    let s := (sdRun (SD.empty : SD Nat Nat) [.set [1] 10, .set [2] 20]).1
+    (sdStep s (.setRefused [1])).2 = .rejected ∧ getitem s.mkd 1 = some 10 ∧ sdDefault s = some 10 ∧
+      getitem (sdStep s (.setRefused [1])).1.mkd 1 = none ∧ sdDefault (sdStep s (.setRefused [1])).1 = none ∧
+      sdGetattr (sdStep s (.setRefused [1])).1 (some 1) = none := by
+  decide
+
 /-! ## non-vacuity: the hypotheses are satisfiable and the statements speak about real histories -/
 
 /-- the docstring example of `MultiKeyDict` -/
@@ -354,6 +471,21 @@ example : ∀ op ∈ ([.set [5] 1, .delattr (some 5), .setattr none 3] : List (S
   intro op h; simp at h; rcases h with rfl | rfl | rfl <;> simp [SOp.noSetattr]
 example : sdDefault (sdRun (SD.empty : SD Nat Nat) [.set [1, 2] 10, .set [3] 20, .set [2, 1] 30]).1 = some 30 := by
   decide
+
+/-- histories with rejected operations interleaved are valid histories (hypothesis of C15.6 / C15.12e) -/
+example : ∀ op ∈ ([.set [1] 3, .setUnhashable [1, 2], .badOperand, .del 1] : List (Op Nat Nat)), Op.valid op := by
+  intro op h; simp at h; rcases h with rfl | rfl | rfl | rfl <;> simp [Op.valid]
+example : (run (St.empty : St Nat Nat) [.set [1] 3, .set [2] 3, .set [5] 4, .setUnhashable [1], .get 1, .key2keys 2,
+    .badOperand, .len]).2 = [.done, .done, .done, .rejected, .val 3, .keys [1, 2], .rejected, .num 2] := by decide
+/-- hypothesis of C15.12h on a reachable state: `d[[]] = 7` with 7 not stored; and the prefix that
+    C15.12g speaks about when it is not empty -/
+example : ∀ k ∈ badKeyPrefix (run (St.empty : St Nat Nat) [.set [1, 2] 1]).1 [] [] 7,
+    key2keys (run (St.empty : St Nat Nat) [.set [1, 2] 1]).1 k = none := by decide
+example : badKeyPrefix (run (St.empty : St Nat Nat) [.set [1, 2] 1, .set [3] 2]).1 [3, 4] [1] 1 = [2, 3, 4] := by decide
+/-- hypothesis of C15.23, and a refused assignment in a valid-history context -/
+example : ∀ k ∈ [3, 4], key2keys (sdRun (SD.empty : SD Nat Nat) [.set [1] 10]).1.mkd k = none := by decide
+example : (sdRun (SD.empty : SD Nat Nat) [.set [1] 10, .rejected, .setRefused [3], .call, .setRefused [1], .call]).2
+    = [.done, .rejected, .rejected, .val 10, .rejected, .notImpl] := by decide
 
 end ALV.Props.C15
 
